@@ -283,6 +283,8 @@ def hyp_run(strategy, run_case, *, n, seed, kind=None, shrink_budget_s=8.0, part
 def _exec_job(job):
     t0 = time.time()
     try:
+        import logging
+        logging.disable(logging.CRITICAL)
         modname, fname = job["fn"].split(":")
         mod = importlib.import_module(modname)
         part = getattr(mod, fname)(**job.get("args", {}))
